@@ -30,7 +30,8 @@ def run(requests: list[str], timeout: float = 3600) -> list[str]:
         cmd = [str(EXE)]
     else:
         cmd = ["lake", "env", "lean", "--run", "Driver.lean"]
-    p = subprocess.run(cmd, input=data, stdout=subprocess.PIPE, stderr=subprocess.PIPE, cwd=LEAN_DIR, timeout=timeout)
+    from .framework import unlimit_memory
+    p = subprocess.run(cmd, input=data, stdout=subprocess.PIPE, stderr=subprocess.PIPE, cwd=LEAN_DIR, timeout=timeout, preexec_fn=unlimit_memory)
     out = p.stdout.decode().split("\n")
     if out and out[-1] == "":
         out.pop()
